@@ -12,6 +12,25 @@ def sh(cmd, **kw):
 	return subprocess.run(cmd, shell=isinstance(cmd, str), capture_output=True, text=True, **kw)
 
 
+def apply_native(scratch, diff):
+	"""Apply a unified diff of src/gambit/_cython/*.c (paths a/src/... b/src/...) to the scratch tree and recompile the changed
+	modules the way the repository's own build does (gcc on the generated C, -O2 -fopenmp). -> error text or None."""
+	sys.path.insert(0, str(VERIF))
+	from vf import native as N
+	cy = Path(scratch) / 'src/gambit/_cython'
+	before = {c.name: c.read_bytes() for c in cy.glob('*.c')}
+	r = sh(f'patch -p1 -d {scratch} -i {diff}')
+	if r.returncode:
+		return 'native.diff does not apply: ' + (r.stdout + r.stderr)[-300:]
+	for c in cy.glob('*.c'):
+		if before.get(c.name) != c.read_bytes():
+			try:
+				N.compile_module(c, c.with_name(c.stem + N.EXT), 'plain')
+			except Exception as e:
+				return f'recompiling {c.name} failed: {str(e)[-300:]}'
+	return None
+
+
 def one(d, tier):
 	meta = json.loads((d / 'meta.json').read_text())
 	scratch = Path('/tmp/seedverify') / ('re-' + d.name)
@@ -24,9 +43,14 @@ def one(d, tier):
 		for f in Path('/repo/src/gambit/_cython').iterdir():
 			if f.suffix in ('.so', '.c'):
 				shutil.copy(f, scratch / 'src/gambit/_cython' / f.name)
-		ap = sh(f'git -C {scratch} apply --whitespace=nowarn {d / "patch.diff"}')
-		if ap.returncode:
-			return d.name, meta['property'], {'apply': 'FAILED ' + ap.stderr[-200:]}
+		if (d / 'patch.diff').exists() and (d / 'patch.diff').read_text().strip():
+			ap = sh(f'git -C {scratch} apply --whitespace=nowarn {d / "patch.diff"}')
+			if ap.returncode:
+				return d.name, meta['property'], {'apply': 'FAILED ' + ap.stderr[-200:]}
+		if (d / 'native.diff').exists():
+			err = apply_native(scratch, d / 'native.diff')
+			if err:
+				return d.name, meta['property'], {'apply': 'FAILED ' + err}
 		for pid in meta.get('caught_by') or [meta['property']]:
 			if pid != meta['property']:
 				continue
